@@ -135,6 +135,10 @@ func (ig *ingest) gates(e *Effect) {
 			ev.Verdict("S0.send", props("C10"), "every send goes through CreateConsensusRawMessage of a factory-built message", "", false, "message argument is "+PP(raw))
 			return
 		}
+		// what goes on the wire is the factory's message itself: a copy re-wrapped on the way (a block dropped, a
+		// content swapped) is not what the node signed and stored
+		ev.Verdict("S0.factory", props("C09", "C10", "C11"), "the message sent is the value a MessageFactory constructor returned, unaltered", "",
+			msg.Op == "call" && strings.HasPrefix(msg.Name, "messagesfactory.Create"), "the sent message is "+PP(msg))
 		switch {
 		case msg.Op == "call" && msg.Name == "messagesfactory.CreateViewChangeMessage" && len(msg.Args) == 4:
 			rcpt := ev.Arg(2)
